@@ -1,4 +1,6 @@
 """C03 - multi-subsystem operators bind to operands in the order given."""
+from hypothesis import strategies as st
+
 from pw_verif import strategies as S
 from pw_verif.props._machine import run_program_case, worker_init  # noqa: F401
 
@@ -21,9 +23,45 @@ ASSUMPTIONS = ["reference self-tests passed", "controlled-swap is the textbook F
                "Expression operands: the library sizes a Fock factor as occupation+1, the reference builds the same number-diagonal factor at the dimension the library chose"]
 
 
+WORLD = dict(min_envs=2, max_envs=3, need_ce=True, fdims=(2, 3), max_joint=400)
+
+
+@st.composite
+def _reuse_case(draw):
+    """one composite Operation object applied again: to the same operands in another order, to other operands of
+    the same kinds, with ladder operations in between that change the Fock operands' sizes"""
+    spec, layout = draw(S.world_and_layout(**WORLD))
+    info = S.Info(spec, layout)
+    ce = sorted(info.ce_members)[0]
+    mem = info.ce_members[ce]
+    cs = S.comp_op(info, mem)
+    if cs is None:
+        return draw(S.program_case(["comp", "op"], max_steps=2, world_kwargs=WORLD))
+    c = draw(cs)
+    steps = [dict(k="op", entry=ce, targets=c["targets"], op=c["op"])]
+    kinds = [info.kind[t] for t in c["targets"]]
+    focks = [m for m in mem if info.kind[m] == "fock"]
+    for _ in range(draw(st.integers(1, 3))):
+        if focks and draw(st.integers(0, 2)) == 0:
+            steps.append(dict(k="op", entry="state", targets=[draw(st.sampled_from(focks))], op=dict(type=draw(st.sampled_from(["fock:Creation", "fock:Annihilation"])))))
+        if draw(st.booleans()):
+            ts = list(draw(st.permutations(c["targets"])))
+        else:
+            ts, pool = [], list(draw(st.permutations(mem)))
+            for k_ in kinds:
+                cand = [m for m in pool if info.kind[m] == k_ and m not in ts]
+                if not cand:
+                    break
+                ts.append(cand[0])
+            if len(ts) != len(kinds):
+                ts = list(c["targets"])
+        steps.append(dict(k="op", entry=ce, targets=ts, op=c["op"], reuse=True))
+    return dict(spec=spec, layout=layout, contraction=draw(st.booleans()), steps=steps)
+
+
 def strategy(tier):
-    return S.program_case(["comp", "comp", "comp", "op"], max_steps=3,
-                          world_kwargs=dict(min_envs=2, max_envs=3, need_ce=True, fdims=(2, 3), max_joint=400))
+    return st.one_of(S.program_case(["comp", "comp", "comp", "op"], max_steps=3, world_kwargs=WORLD),
+                     S.program_case(["comp", "comp", "comp", "op"], max_steps=3, world_kwargs=WORLD), _reuse_case())
 
 
 def run_case(case):
